@@ -3,12 +3,15 @@ package main
 import (
 	"encoding/json"
 	"fmt"
+	"io"
 	"os"
 	"os/exec"
 	"runtime"
 	"strings"
 	"sync"
 	"sync/atomic"
+	"syscall"
+	"unsafe"
 
 	"verif/rt"
 )
@@ -49,7 +52,65 @@ func coldChildMain(spec string) {
 	}()
 	vs, n, ev := c.ExportViolations()
 	b, _ := json.Marshal(coldReport{vs, n, ev})
+	if os.Getenv("VERIF_COLD_FD") == "3" { // standard output may be /dev/null, a file or a terminal in this child
+		f := os.NewFile(3, "result")
+		fmt.Fprintln(f, "COLD-RESULT "+string(b))
+		f.Close()
+		return
+	}
 	fmt.Println("COLD-RESULT " + string(b))
+}
+
+// coldStdio gives child i its standard streams: what a library may look at when it starts (is standard
+// output a terminal, a character device, a file?) differs between a test run and production. The
+// result travels over descriptor 3. Returns a description and a cleanup function.
+func coldStdio(cmd *exec.Cmd, i int) (string, func()) {
+	null := func(flag int) *os.File { f, _ := os.OpenFile(os.DevNull, flag, 0); return f }
+	switch i % 4 {
+	case 1:
+		in, out := null(os.O_RDONLY), null(os.O_WRONLY)
+		cmd.Stdin, cmd.Stdout = in, out
+		return "stdin and stdout are /dev/null", func() { in.Close(); out.Close() }
+	case 2:
+		f, err := os.CreateTemp("", "verif-cold-stdout-")
+		if err == nil {
+			cmd.Stdout = f
+			return "stdout is a regular file, stdin closed", func() { f.Close(); os.Remove(f.Name()) }
+		}
+	case 3:
+		if m, sl, err := openPty(); err == nil {
+			cmd.Stdin, cmd.Stdout = sl, sl
+			return "stdin and stdout are a pseudo-terminal", func() { sl.Close(); m.Close() }
+		}
+		out := null(os.O_WRONLY)
+		cmd.Stdout = out
+		return "stdout is /dev/null (no pseudo-terminal available)", func() { out.Close() }
+	}
+	return "stdout is a pipe", func() {}
+}
+
+// openPty opens a pseudo-terminal pair through /dev/ptmx.
+func openPty() (master, slave *os.File, err error) {
+	master, err = os.OpenFile("/dev/ptmx", os.O_RDWR|syscall.O_NOCTTY, 0)
+	if err != nil {
+		return nil, nil, err
+	}
+	var n uint32
+	var unlock int32
+	if _, _, e := syscall.Syscall(syscall.SYS_IOCTL, master.Fd(), syscall.TIOCSPTLCK, uintptr(unsafe.Pointer(&unlock))); e != 0 {
+		master.Close()
+		return nil, nil, e
+	}
+	if _, _, e := syscall.Syscall(syscall.SYS_IOCTL, master.Fd(), syscall.TIOCGPTN, uintptr(unsafe.Pointer(&n))); e != 0 {
+		master.Close()
+		return nil, nil, e
+	}
+	slave, err = os.OpenFile(fmt.Sprintf("/dev/pts/%d", n), os.O_RDWR|syscall.O_NOCTTY, 0)
+	if err != nil {
+		master.Close()
+		return nil, nil, err
+	}
+	return master, slave, nil
 }
 
 // coldStart runs n cold cases of prop in fresh child processes and merges what they observed.
@@ -58,6 +119,7 @@ func coldStart(c *rt.Ctx, prop string, n int) {
 	var wg sync.WaitGroup
 	sem := make(chan struct{}, 8)
 	done := 0
+	streams := map[string]int{}
 	for i := 0; i < n; i++ {
 		wg.Add(1)
 		sem <- struct{}{}
@@ -65,10 +127,29 @@ func coldStart(c *rt.Ctx, prop string, n int) {
 			defer wg.Done()
 			defer func() { <-sem }()
 			cmd := exec.Command(os.Args[0], prop)
-			cmd.Env = append(coldEnv(i), fmt.Sprintf("VERIF_COLD=%s/%d", prop, i), "GOTRACEBACK=single")
-			out, err := cmd.CombinedOutput()
+			cmd.Env = append(coldEnv(i), fmt.Sprintf("VERIF_COLD=%s/%d", prop, i), "GOTRACEBACK=single", "VERIF_COLD_FD=3")
+			pr, pw, perr := os.Pipe()
+			if perr != nil {
+				c.Inconclusive("cannot create a pipe for a cold child: " + perr.Error())
+				return
+			}
+			cmd.ExtraFiles = []*os.File{pw}
+			var errb strings.Builder
+			cmd.Stderr = &errb
+			stdio, cleanup := coldStdio(cmd, i)
+			err := cmd.Start()
+			pw.Close()
+			var out []byte
+			if err == nil {
+				out, _ = io.ReadAll(pr)
+				err = cmd.Wait()
+			}
+			pr.Close()
+			cleanup()
+			out = append(out, errb.String()...)
 			mu.Lock()
 			defer mu.Unlock()
+			streams[stdio]++
 			line := ""
 			for _, l := range strings.Split(string(out), "\n") {
 				if strings.HasPrefix(l, "COLD-RESULT ") {
@@ -90,6 +171,7 @@ func coldStart(c *rt.Ctx, prop string, n int) {
 				}
 				v.Args["cold_start_index"] = i
 				v.Args["environment"] = strings.Join(hostileEnvs[i%len(hostileEnvs)], " ")
+				v.Args["standard_streams"] = stdio
 				v.Key = "cold-start:" + v.Key
 				c.ImportViolation(v)
 			}
@@ -100,6 +182,7 @@ func coldStart(c *rt.Ctx, prop string, n int) {
 	wg.Wait()
 	c.Extra("cold_start_children", done)
 	c.Extra("cold_start_environments", len(hostileEnvs))
+	c.Extra("cold_start_standard_streams", streams)
 	if done < n {
 		c.Inconclusive(fmt.Sprintf("only %d of %d cold-start children reported", done, n))
 	}
